@@ -147,12 +147,28 @@ func checkParsed(raw []byte) Event {
 		ev["fieldsOk"] = proto.Equal(m, MsgFromQuote(ref))
 	}
 	var back []byte
+	stable := true
 	o2 := Guard(10*time.Second, func() error {
 		var err error
 		back, err = abi.QuoteToAbiBytes(m)
-		return err
+		if err != nil {
+			return err
+		}
+		// what was returned belongs to the caller: serialising another quote afterwards (same goroutine) must not change it
+		keep := append([]byte{}, back...)
+		other := proto.Clone(m).(*pb.QuoteV4)
+		for i := range other.TdQuoteBody.MrTd {
+			other.TdQuoteBody.MrTd[i] ^= 0xa5
+		}
+		other.Header.UserData[0] ^= 0xff
+		other.ExtraBytes = append(other.ExtraBytes, 0xee, 0xee)
+		if _, err2 := abi.QuoteToAbiBytes(other); err2 != nil {
+			return err2
+		}
+		stable = bytes.Equal(back, keep)
+		return nil
 	})
-	ev["reserialOk"] = o2.Verdict() == "accept" && bytes.Equal(back, raw)
+	ev["reserialOk"] = o2.Verdict() == "accept" && bytes.Equal(back, raw) && stable
 	var hb []byte
 	o3 := Guard(10*time.Second, func() error {
 		h, err := abi.HeaderToAbiBytes(m.GetHeader())
